@@ -13,9 +13,16 @@ TimeMonotone == [][now' >= now]_vars
 
 PendingStrictlyFuture == \A a \in LiveSet : a.time > now
 
-FiresAtDeadline == \A i \in DOMAIN fired : fired[i].time = fired[i].due
+(* all handler starts, of every model *)
+AllFired == UNION {{fired[m][i] : i \in 1..Len(fired[m])} : m \in Models}
 
-ChronologicalOrder == \A i, j \in DOMAIN fired : i < j => fired[i].time <= fired[j].time
+FiresAtDeadline == \A f \in AllFired : f.time = f.due
+
+(* per model the times seen never decrease; across models this follows from TimeMonotone and *)
+(* FiresAtDeadline, every handler seeing the current time                                    *)
+ChronologicalOrder ==
+    /\ \A m \in Models : \A i, j \in 1..Len(fired[m]) : i < j => fired[m][i].time <= fired[m][j].time
+    /\ \A f \in AllFired : f.time <= now
 
 StepPost ==
     (phase = "ret" /\ result = ROk) =>
@@ -26,7 +33,12 @@ StepPost ==
 (* Number of firings a series must have had once the simulation is idle at now. *)
 Expected(s, t) == IF t < s.first THEN 0 ELSE IF s.per = 0 THEN 1 ELSE ((t - s.first) \div s.per) + 1
 
-FiringsOf(s) == SelectSeq(fired, LAMBDA f : f.sid = s.sid)
+FiringsOf(s) == {f \in AllFired : f.sid = s.sid}
+NFirings(s) == LET F[S \in SUBSET Models] ==
+                     IF S = {} THEN 0
+                     ELSE LET m == CHOOSE x \in S : TRUE
+                          IN  Cardinality({i \in 1..Len(fired[m]) : fired[m][i].sid = s.sid}) + F[S \ {m}]
+               IN  F[Models]
 
 NumTargets(s) == IF s.cls = "ev" THEN (IF s.target \in Models THEN 1 ELSE 0)
                  ELSE Cardinality({i \in 1..Len(SrcConn[s.target]) : SrcConn[s.target][i] \in Models})
@@ -37,41 +49,45 @@ NumTargets(s) == IF s.cls = "ev" THEN (IF s.target \in Models THEN 1 ELSE 0)
 ExactFirings ==
     (phase = "idle" /\ ~terminated) =>
         \A s \in sched :
-            LET fs == FiringsOf(s)
+            LET nf == NFirings(s)
                 nt == NumTargets(s)
-            IN  /\ (s.key = 0 \/ s.key \notin cancelled) => Len(fs) = nt * Expected(s, now)
-                /\ Len(fs) <= nt * Expected(s, now)
-                /\ \A i \in DOMAIN fs : \E k \in 0..now :
-                       /\ fs[i].time = s.first + k * s.per
+            IN  /\ (s.key = 0 \/ s.key \notin cancelled) => nf = nt * Expected(s, now)
+                /\ nf <= nt * Expected(s, now)
+                /\ \A f \in FiringsOf(s) : \E k \in 0..now :
+                       /\ f.time = s.first + k * s.per
                        /\ (s.per = 0 => k = 0)
+                \* once per recipient at each occurrence time
+                /\ \A m \in Models : \A i, j \in 1..Len(fired[m]) :
+                       (i < j /\ fired[m][i].sid = s.sid /\ fired[m][j].sid = s.sid /\ s.cls = "ev")
+                          => fired[m][i].time < fired[m][j].time
 
 (* C08 *)
 ScheduleValidated == \A s \in sched : s.first > s.at /\ (s.periodic => s.per > 0)
 
 (* C07 *)
 SameOriginFifo ==
-    \A i, j \in DOMAIN fired :
-        (i < j /\ fired[i].ep > 0 /\ fired[j].ep > 0 /\ fired[i].time = fired[j].time
-           /\ fired[i].model = fired[j].model /\ fired[i].origin = fired[j].origin)
-        => fired[i].ep < fired[j].ep
+    \A m \in Models : \A i, j \in 1..Len(fired[m]) :
+        (i < j /\ fired[m][i].ep > 0 /\ fired[m][j].ep > 0 /\ fired[m][i].time = fired[m][j].time
+           /\ fired[m][i].origin = fired[m][j].origin)
+        => fired[m][i].ep < fired[m][j].ep
 
 (* C09 *)
 NoFireAfterCancel ==
-    \A k \in DOMAIN cancelPos : \A i \in DOMAIN fired :
-        i > cancelPos[k].n =>
-            /\ fired[i].key # k
+    \A k \in DOMAIN cancelPos : \A m \in Models : \A i \in 1..Len(fired[m]) :
+        i > cancelPos[k].n[m] =>
+            /\ fired[m][i].key # k
             \* an event-source action cannot be cancelled once its step has begun
-            /\ fired[i].akey = k => (fired[i].time = cancelPos[k].t /\ cancelPos[k].ph = "run")
+            /\ fired[m][i].akey = k => (fired[m][i].time = cancelPos[k].t /\ cancelPos[k].ph = "run")
 
 CancelIsLocal ==
     (phase = "idle" /\ ~terminated) =>
-        \A s \in sched : (s.key = 0) => Len(FiringsOf(s)) = NumTargets(s) * Expected(s, now)
+        \A s \in sched : (s.key = 0) => NFirings(s) = NumTargets(s) * Expected(s, now)
 
 (* C11 *)
 TerminatedSticky ==
     (terminated /\ termAt # NotTerminated) =>
         /\ now = termAt.now
-        /\ Len(fired) = termAt.nfired
+        /\ \A m \in Models : Len(fired[m]) = termAt.nfired[m]
         /\ Len(synced) = termAt.nsynced
         /\ phase \in {"idle", "ret"}
         /\ phase = "ret" => result = RTerminated
@@ -83,7 +99,7 @@ NonFatalKeepsUsable ==
 (* C18 *)
 SyncMonotone == \A i \in 1..(Len(synced) - 1) : synced[i] <= synced[i + 1]
 
-SyncBeforeCompute == \A i \in DOMAIN fired : synced[fired[i].nsync] = fired[i].time
+SyncBeforeCompute == \A f \in AllFired : synced[f.nsync] = f.time
 
 SyncCoversNow == phase \in {"run", "idle"} /\ ~terminated => synced[Len(synced)] = now
 
@@ -93,6 +109,6 @@ SyncOncePerNewTime ==
         j = i + 1 \/ \A k \in i..j : synced[k] = synced[i]
 
 OutOfSyncGates ==
-    (phase = "ret" /\ result.r = "outofsync") => \A i \in DOMAIN fired : fired[i].nsync < Len(synced)
+    (phase = "ret" /\ result.r = "outofsync") => \A f \in AllFired : f.nsync < Len(synced)
 
 =============================================================================
